@@ -79,5 +79,10 @@ def bond_amount(p, who='alice'):
 
 
 def global_of(p):
+    """(global bonded total, [amount reported for DENOMS[0], for DENOMS[1]]) - looked up by denom: a missing entry reports 0, entries of one denom add up"""
     g = p.world.storage['global']
-    return g.fields[0].fields[0], [a.fields[1].fields[0] for a in g.fields[1].items]
+    per = []
+    for d in DENOMS:
+        mine = [a.fields[1].fields[0] for a in g.fields[1].items if same(a.fields[0].fields[0], d)]
+        per.append(sum(mine) if mine else 0)
+    return g.fields[0].fields[0], per
